@@ -170,6 +170,12 @@ def run_stmts(e, stmts):
         t = s[0]
         if t == "set":
             assign(e, s[1], bexpr(e, s[2]))
+        elif t == "setshared":
+            # ["setshared", base expr, [[target, op, operand expr], ...]]: ONE expression object, built once, is extended several
+            # times (base = e.r2 + 8;  e.a = base + 1;  e.b = base - 3)
+            base = bexpr(e, s[1])
+            for tgt, op, operand in s[2]:
+                assign(e, tgt, OPS[op](base, bexpr(e, operand)))
         elif t in ("iadd", "isub"):
             tgt = s[1]
             val = bexpr(e, s[2])
